@@ -313,7 +313,12 @@ pub fn gen_iso(rng: &mut Rng, thorough: bool) -> Vec<String> {
             let key = if key.starts_with("-+") { key[2..].to_string() } else { key };
             match rng.below(5) {
                 0 => acts.push(format!("(rm {})", key)),
-                1 => acts.push(format!("(rng {} ~ asc)", if rng.chance(1, 2) { "~".to_string() } else { key })),
+                1 => acts.push(format!(
+                    "({} {} ~ {})",
+                    if rng.chance(1, 2) { "rngk" } else { "rng" },
+                    if rng.chance(1, 2) { "~".to_string() } else { key },
+                    if rng.chance(1, 2) { "asc" } else { "desc" }
+                )),
                 _ => acts.push(format!("(w {} {:02x})", key, rng.range(1, 200))),
             }
         }
@@ -428,7 +433,7 @@ pub fn gen_legacy(rng: &mut Rng, thorough: bool) -> Vec<String> {
             let key = rng.pick(&keys);
             match rng.below(6) {
                 0 => acts.push(format!("(rm {})", key)),
-                1 => acts.push("(rng ~ ~ asc)".to_string()),
+                1 => acts.push(format!("({} ~ ~ {})", if rng.chance(1, 2) { "rngk" } else { "rng" }, if rng.chance(1, 2) { "asc" } else { "desc" })),
                 2 => acts.push(format!("(rd {})", key)),
                 _ => acts.push(format!("(w {} {:02x})", key, rng.range(1, 200))),
             }
